@@ -268,6 +268,18 @@ def r1_guards(ctx) -> None:
         ctx.check(ok2, "C13.R1", "build.cfg.Block._wire_up_port: NotInSameCfg before the fallback link", mod.path, fn.lineno,
                   "the fallback must climb from the source's parent to the enclosing CFG, raise NotInSameCfg when it reaches None or the root "
                   "first, and add the link only after that walk succeeded" + (f" [{why}]" if why else ""), fn)
+    # ---- every way of wiring a port up answers with the CHECKED type of the source (a port that carries no value is refused there):
+    #      also on the dominator-edge fallback, where the ordinary wiring did not complete
+    for q_ in ("hugr.build.dfg.DfBase._wire_up_port", "hugr.build.cfg.Block._wire_up_port"):
+        fn_, mod_, cls_ = ctx.locate(q_)
+        done = [p for p in ctx.paths(q_, supers=True) if p.kind in ("return", "fall")]
+        # (the answer itself is the checked type, or the check was made by a statement of this path outside any try block)
+        bad = [p for p in done if not (p.kind == "return" and p.value is not None and any(
+            isinstance(c_, ast.Call) and call_name(c_) == "_get_dataflow_type" for c_ in ast.walk(p.value)))
+            and not any(isinstance(c_, ast.Call) and call_name(c_) == "_get_dataflow_type" for e_ in p.effects if not isinstance(e_, ast.Try) for c_ in ast.walk(e_))]
+        ctx.check(bool(done) and not bad, "C13.R1", f"{q_.split('.', 1)[1]}: the source port is type-checked on every completing path", mod_.path, fn_.lineno,
+                  "a wire whose source port carries no value (a Const / function definition port, an order port) must be refused with ValueError "
+                  "by _get_dataflow_type on every path that wires it up" + (f" [path {bad[0].describe()[:200]}]" if bad else ""), bad[0].node if bad and bad[0].node is not None else fn_)
     # ---- DfBase.add: integer wire in an untracked builder
     q = "hugr.build.dfg.DfBase.add"
     fn_o, mod, cls = ctx.locate(q)
